@@ -1,1 +1,4 @@
+-- Root of the library: everything `setup.sh` pre-builds.
 import BezierVerif.Basic
+import BezierVerif.DriverMain
+import BezierVerif.Props.C01
